@@ -1,5 +1,5 @@
 // unit c22_lineindex — C22 "Offsets and LSP positions convert consistently and stay in bounds"
-// (also serves the range clause of C21 and the lemma of C25).
+// (also serves the range clause of C21 and the in-document clause of C25: LuaDocument conversions at the end).
 // Hand-written part: text-size shim, the spec vocabulary of the property, lemmas. `//@@` items are
 // the real functions, extracted from /repo on every run.
 use vstd::prelude::*;
